@@ -50,6 +50,10 @@ IdentVecs ==
   Cross2(IdFns, IdPairs, LAMBDA fn, p : One(B(fn, IdModel(p[1], p[2], 0, 0, 0, p[1] + 2 * p[2]), "valid-sizes")))
   \o Cross3(IdFns, << << 7, 4 >>, << 0, 0 >>, << 1, 0 >>, << 2, 4 >>, << 11, 4 >> >>, << << -1, 0, 0 >>, << 1, 0, 0 >>, << 0, -1, 0 >>, << 0, 1, 0 >>, << 0, 0, -1 >>, << 0, 0, 1 >> >>,
       LAMBDA fn, p, d : One(B(fn, IdModel(p[1], p[2], d[1], d[2], d[3], 5), "size-defect")))
+  \* experimental-range codes have no key size: the library treats their keys as zero-length, so that is what a caller would pass
+  \o Cross2(IdFns, << << 11, 65280 >>, << 8, 65534 >>, << 4, 65280 >>, << 65280, 6 >>, << 65534, 5 >>, << 65280, 65280 >>, << 7, 65280 >>, << 65280, 4 >> >>, LAMBDA fn, p :
+      One(B(fn, [st |-> p[1], ct |-> p[2], pub |-> (IF p[2] >= 65280 THEN << >> ELSE SafeKey(PubLenOf(p[2]), 3)), spk |-> (IF p[1] >= 65280 THEN << >> ELSE SafeKey(SpkLenOf(p[1]), 4)),
+                 padding |-> Fill(BlockLen - (IF p[2] >= 65280 THEN 0 ELSE PubLenOf(p[2])) - (IF p[1] >= 65280 THEN 0 ELSE SpkLenOf(p[1])), 5)], "experimental-zero-length")))
   \* a caller-assembled KeysAndCert (struct literal) handed to the wrappers: prohibited types, alone and next to experimental-range codes
   \o Cross2(<< "NewDestination", "NewRouterIdentityFromKeysAndCert" >>,
             << << 8, 4 >>, << 4, 0 >>, << 7, 5 >>, << 11, 4 >>, << 8, 65280 >>, << 4, 65534 >>, << 65280, 6 >>, << 65534, 5 >>, << 11, 65280 >>, << 7, 4 >>, << 0, 0 >> >>, LAMBDA fn, p :
